@@ -47,3 +47,39 @@ theorem arrayCenter_eq (e : Extent) :
   simp [arrayCenter, Gen.arrayCenter]
 
 end Lentil
+
+namespace Lentil
+
+/-- Bool form of `intersection_mem` -/
+theorem inter_inb (a b : Extent) (r c : Int) :
+    (intersectionExtent a b).inb r c = (a.inb r c && b.inb r c) := by
+  rw [Bool.eq_iff_iff, Bool.and_eq_true, Extent.inb_iff, Extent.inb_iff, Extent.inb_iff, intersectionExtent_eq]
+  simp only; omega
+
+theorem not_intersect_inb (a b : Extent) (h : intersect a b = false) (r c : Int) :
+    (a.inb r c && b.inb r c) = false := by
+  rw [Bool.eq_false_iff]
+  intro hh
+  rw [Bool.and_eq_true, Extent.inb_iff, Extent.inb_iff] at hh
+  have : intersect a b = true := by rw [intersect_iff']; omega
+  rw [h] at this; exact Bool.false_ne_true this
+
+/-- where the intersection slices start, in each operand's index space -/
+theorem slices_start (a b : Extent) :
+    (intersectionSlices a b).1.1.1 = (intersectionExtent a b).rmin - a.rmin ∧
+    (intersectionSlices a b).1.2.1 = (intersectionExtent a b).cmin - a.cmin ∧
+    (intersectionSlices a b).2.1.1 = (intersectionExtent a b).rmin - b.rmin ∧
+    (intersectionSlices a b).2.2.1 = (intersectionExtent a b).cmin - b.cmin := by
+  rw [intersectionSlices_eq, intersectionExtent_eq]; simp
+
+/-- the product array (shape of the `a` slice, offset = intersection shift) occupies exactly the intersection extent -/
+theorem mulArr_extent (a b : Extent) (h : intersect a b = true) :
+    arrayExtent ((intersectionSlices a b).1.1.2 - (intersectionSlices a b).1.1.1)
+                ((intersectionSlices a b).1.2.2 - (intersectionSlices a b).1.2.1)
+                (intersectionShift a b).1 (intersectionShift a b).2 = intersectionExtent a b := by
+  rw [intersect_iff'] at h
+  rw [arrayExtent_eq, intersectionExtent_eq, intersectionShift_eq, intersectionSlices_eq]
+  simp only [Extent.mk.injEq]
+  omega
+
+end Lentil
